@@ -73,7 +73,10 @@ type FuncContract struct {
 	Trusted   bool // body not verified: contract assumed at call sites
 	TrustWhy  string
 	Pure      bool
-	Line      int
+	// Seq: the function only returns a range function `func(NAME func(T) bool) { … }`; the contract describes one
+	// invocation of that function (NAME has the role yield), with the parameters as they were when it was made
+	Seq  string
+	Line int
 }
 
 type Lemma struct {
@@ -501,6 +504,8 @@ func parseContractText(text, path, importPath string) (pc *PkgContracts, err err
 					cur.GhostRet = append(cur.GhostRet, parseParams(p)...)
 				case "pure":
 					cur.Pure = true
+				case "seq":
+					cur.Seq = strings.TrimSpace(rest)
 				case "uses":
 					for _, u := range strings.Split(rest, ",") {
 						cur.Uses = append(cur.Uses, strings.TrimSpace(u))
